@@ -17,13 +17,16 @@
  *                               and keeps the held-button record that names the button of a button-less X10 release);
  *                               CODE = button code 0..2, 3 = release, +32 motion, 64/65 wheel, +4 shift +8 alt +16 ctrl
  * Actions: c close, u unref, k ref (keep), h hide, s show, r raise, R raise_to_front, l lower, L lower_to_back,
- *          f take_focus, t steal-input on, T steal-input off.
+ *          f take_focus, t steal-input on, T steal-input off,
+ *          g<id>@dt@dl@dn@dc  tickit_window_set_geometry(current rect + (dt, dl, dn, dc)): the window moves / resizes itself or
+ *          another window from inside the dispatch.
  * The harness is the application: it owns one reference per window it created (plus one per `k`), and it follows
  * these rules, which the model's interpreter mirrors exactly (a refused action is logged as x<a><id>):
  *   - every action needs a live target;
  *   - u: needs an owned reference, a target other than the root, and no children (tear down leaf-first: a parent's
  *        destruction drops one reference of every child, which is the life engine's business, C08);
- *   - r R l L f: need a target attached to the root (the library abort()s on an orphaned subtree).
+ *   - r R l L f: need a target attached to the root (the library abort()s on an orphaned subtree);
+ *   - g: not the root window (its geometry is the terminal's: the root is resized by the terminal's resize event).
  * Observation: the event log of the operation, then `|`, then the dump of every live window through public queries.
  *   K<w>.<i>/<e><+|->:<type>,<mod>                 key handler i of window w ran entry e and claimed(+)/declined(-)
  *   M<w>.<i>/<e><+|->:<type>,<button>,<line>,<col>,<mod>
@@ -40,7 +43,7 @@
 #define MAXE 8
 #define MAXA 6
 
-typedef struct { char a; int w; } Action;
+typedef struct { char a; int w; int d[4]; } Action;
 typedef struct { int ret; int unbind; int nact; Action act[MAXA]; } Entry;
 typedef struct { int win, idx, kind, n, count, id; Entry e[MAXE]; } Binding;
 
@@ -107,6 +110,9 @@ static void do_action(Action a)
     case 'r': case 'R': case 'l': case 'L': case 'f':
       ok = attached(id);
       break;
+    case 'g':
+      ok = id != 0;
+      break;
     default:
       break;
   }
@@ -124,6 +130,12 @@ static void do_action(Action a)
     case 'f': tickit_window_take_focus(w); break;
     case 't': tickit_window_set_steal_input(w, true); break;
     case 'T': tickit_window_set_steal_input(w, false); break;
+    case 'g': {
+      TickitRect r = tickit_window_get_geometry(w);
+      r.top += a.d[0]; r.left += a.d[1]; r.lines += a.d[2]; r.cols += a.d[3];
+      tickit_window_set_geometry(w, r);
+      break;
+    }
     default: item("bad-action"); break;
   }
 }
@@ -201,11 +213,23 @@ static void engine_end(void) { teardown(); }
 
 static int parse_action(const char *s, Action *a)
 {
-  if(!s[0] || !strchr("cukhsrRlLftT", s[0])) return 0;
+  if(!s[0] || !strchr("cukhsrRlLftTg", s[0])) return 0;
   char *end;
   long v = strtol(s + 1, &end, 10);
-  if(end == s + 1 || *end) return 0;
+  if(end == s + 1) return 0;
   a->a = s[0]; a->w = (int)v;
+  memset(a->d, 0, sizeof a->d);
+  if(s[0] == 'g') {
+    /* g<id>@<dtop>@<dleft>@<dlines>@<dcols> */
+    for(int i = 0; i < 4; i++) {
+      if(*end != '@') return 0;
+      const char *q = end + 1;
+      long d = strtol(q, &end, 10);
+      if(end == q) return 0;
+      a->d[i] = (int)d;
+    }
+  }
+  if(*end) return 0;
   return 1;
 }
 
